@@ -172,6 +172,23 @@ def run(tier, seed, replay=None):
                 meta.append(('fresh', len(reqs) - 2, [b.decoy_names(), twin.decoy_names()]))
     resp = cm.run_hook(reqs, exe_hook)
     stats = dict(unsupported=0, crash=0, blocks=0, twins=0, params=0, payload_only_params=0, decoy_pairs=0)
+    body_violations = []
+    if not replay:
+        # bodies outside the hook's term language (loops with labels spelled like lifetime parameters,
+        # ..): "the rewritten block means the same" is decided by compiling and running the programs
+        # of corpus/C13 (each asserts the values it expects)
+        import os
+        from . import rustc_engine as rc
+        cdir = os.path.join(cm.ROOT, 'corpus', 'C13')
+        for f in sorted(os.listdir(cdir)) if os.path.isdir(cdir) else []:
+            if not f.endswith('.rs'):
+                continue
+            src = open(os.path.join(cdir, f)).read()
+            r = rc.compile_run(src)
+            stats['body_programs'] = stats.get('body_programs', 0) + 1
+            if not (r['ok'] and r.get('run_ok')):
+                body_violations.append(dict(kind='property', request='corpus/C13/' + f, program=src, errors=r['errors'][:4],
+                                            oracle='a program whose item bodies use names spelled like parameters no longer compiles and runs after canonicalisation: %s' % r['errors'][:2]))
     mreq, midx = [], []
     parsed = {}
     for i, r in enumerate(resp):
@@ -190,7 +207,7 @@ def run(tier, seed, replay=None):
     per = {}
     for key, m in zip(midx, mresp):
         per[key] = m
-    violations, nontrivial = [], set()
+    violations, nontrivial = list(body_violations), set()
     for i, t in parsed.items():
         if resp[i].startswith('(Crash'):
             continue
